@@ -36,6 +36,8 @@ def run(tier, seed, replay_rows=None):
     ck.assumptions = ["the discretisation tolerance per window is computed by the harness from the INPUTS with Go's math package "
                       "(1.5 x the Riemann-sum edge terms f*(phi(0)+phi(R-f)+phi(R))/mass, + 2 for the carry, + 1e-6 V): TLC has no exp/erfc",
                       "domain: frequency divides the repeat window, peak inside the window, sigma >= one tick"]
+    # unbounded: the carry relations are an inductive invariant for every ideal rate and any number of ticks
+    vlib.inductive(ck, "GaussCarryInd", mutant="GaussCarryIndMut")
     vlib.flow(ck, mcs=[("GaussCarry", "MC_GaussCarry.cfg", dict(workers=4, timeout=300))],
               sub="c11", trace_module="Trace_GaussCarry", trace_cfg="Trace_GaussCarry.cfg", trace_file="c11.ndjson",
               key_of=lambda t: "calculator-rejected-or-panicked" if t["panicked"] else "window-volume-or-shape",
